@@ -376,8 +376,14 @@ q_number::q_number(const z_number &z) {
 }
 
 q_number::q_number(const z_number &num, const z_number &den) {
+  if (den == 0) {
+    CRAB_ERROR("q_number: denominator is zero");
+  }
   mpz_init_set(mpq_numref(_n), num._n);
   mpz_init_set(mpq_denref(_n), den._n);
+  // GMP's mpq functions assume a positive denominator and no common
+  // factors. Without this, q_number(1, -2) compares as positive.
+  mpq_canonicalize(_n);
 }
 
 q_number q_number::from_mpq_t(mpq_t mp) {
